@@ -217,6 +217,30 @@ def run(shard, ctx):
                 continue
             check_names_constructible(ctx, res[0], w)
             ctx.state(tuple(res[0]))
+        # systematically: every shorthand chord on three roots plus every single added note (the kind of input for which a
+        # recogniser may coin a name that no constructor knows), as built and in one rotation; spread over the shards
+        try:
+            part, parts = int(shard["name"].rsplit("-", 1)[1]), 8 if ctx.tier == "quick" else 16
+        except ValueError:
+            part, parts = 0, 1
+        exts = ["2", "b2", "#2", "4", "#4", "6", "b6", "7", "b7", "b3", "3", "5", "b5", "#5"]
+        combos = [(root, k, ext) for root in ("C", "F#", "Bb") for k in ks for ext in exts]
+        for ci, (root, k, ext) in enumerate(combos):
+            if ci % parts != part:
+                continue
+            base = list(chords.from_shorthand(root + k))
+            extra_note = intervals.from_shorthand(base[0], ext)
+            if extra_note in base or len(base) >= 7:
+                continue
+            for rot in (0, 1 + ci % len(base)):
+                notes = base + [extra_note]
+                notes = notes[rot:] + notes[:rot]
+                w = {"notes": notes, "built_as": "%s%s + %s" % (root, k, ext)}
+                res = both_forms(ctx, notes, w)
+                lens[len(notes)] = lens.get(len(notes), 0) + 1
+                ctx.case(("structured-systematic", tuple(notes)), nontrivial=True)
+                if res is not None:
+                    check_names_constructible(ctx, res[0], w)
         ctx.extra["structured_inputs_by_length"] = 0
         for k, v in lens.items():
             ctx.count("structured inputs with %2d notes" % k, v)
